@@ -150,7 +150,7 @@ Fixpoint reps_aux {A} (eqb : A -> A -> bool) (seen : list A) (l : list A) : list
   end.
 
 (* 1, number of occurrences, canonical class of each occurrence, then per class:
-   Decl, Uses, in module scope's Declared?, in module scope's Undeclared? *)
+   Decl, Uses, in module scope's Declared?, in module scope's Undeclared?; then whether the program is in [core_x] *)
 Definition run_scope_e2e_algo (l : list Z) : list Z :=
   match run_program (prog_of l) with
   | Running ps =>
@@ -162,6 +162,7 @@ Definition run_scope_e2e_algo (l : list Z) : list Z :=
                                if memn r (sdeclared g) then 1 else 0;
                                if memn r (sundeclared g) then 1 else 0])
                     (reps_aux Nat.eqb [] roots)
+        ++ [if core_x (prog_of l) then 1 else 0]     (* the fragment of resolution_correct_partial, mirrored by the harness *)
   | Rejected => [0]
   | Crashed => [-1]
   | NoFuel => [-2]
